@@ -83,9 +83,9 @@ def judgeBound (t : Tables) (ctx : Ctx) (lt sq : Nat) (script : Bytes) (wit : Li
         [ le "wcount" count d.wCount, le "wsize" size d.wSize ]
         ++ (if ctx == .tap then [] else
             [ le "sssize" ssz d.ssSize, le "ops" st.ops (staticOps + d.execOps) ])
-        -- the figure the library compares with MAX_STACK_SIZE is max_witness_stack_count +
-        -- max_exec_stack_count; CHECKMULTISIG's pushes of k and n are not counted by it (F12)
-        ++ [ le "stack" st.peak (d.wCount + d.execStack + (if st.hasMultisig then 2 else 0)) ]
+    -- stack depth: `max_exec_stack_count` is not one of the figures the property lists and is
+    -- known to be inexact; what is judged is the LIMIT: with `lim` the run above had
+    -- `stackLimits` on, so a peak above 1000 is an execution error
     let limChecks : List (String × Bool) :=
       if !lim then [] else
         (match scriptLimit ctx with
